@@ -165,6 +165,7 @@ inline void RWLockImpl::waitForReaderDrain() {
 
 inline void RWLockImpl::lock() {
   setWriteBit();
+  DISPENSO_VERIF_POINT(::dispenso::verif::kRwLockAfterWriteBit);
   waitForReaderDrain();
 }
 
@@ -175,6 +176,7 @@ inline bool RWLockImpl::tryWriteBit() {
 
 inline bool RWLockImpl::try_lock() {
   int val = lockWord().fetch_or(kWriteBit, std::memory_order_acq_rel);
+  DISPENSO_VERIF_POINT(::dispenso::verif::kRwTryLockAfterFetchOr);
   if (val & kWriteBit) {
     // Another writer already owns the bit. We did not set it, so we must not
     // clear it on the way out.
@@ -207,6 +209,7 @@ inline void RWLockImpl::unlock() {
 
 inline void RWLockImpl::lock_shared() {
   int val = lockWord().fetch_add(1, std::memory_order_acq_rel);
+  DISPENSO_VERIF_POINT(::dispenso::verif::kRwSharedAfterFetchAdd);
   while (val & kWriteBit) {
     readerRelease();
     for (int spin = 0; val & kWriteBit; ++spin) {
@@ -222,6 +225,7 @@ inline void RWLockImpl::lock_shared() {
 
 inline bool RWLockImpl::try_lock_shared() {
   int val = lockWord().fetch_add(1, std::memory_order_acq_rel);
+  DISPENSO_VERIF_POINT(::dispenso::verif::kRwSharedAfterFetchAdd);
   if (val & kWriteBit) {
     readerRelease();
     return false;
